@@ -188,10 +188,22 @@ Proof.
     + right. exact (mem_In _ _ H).
 Qed.
 
+(* ---------------------------------------------------------------- no alias of guarded state escapes *)
+
+(* No alias of a guarded slice or map (Group.history/clients/data, the group
+   registry, Channel.queue, the entries of Cache and Map, the token table)
+   leaves its critical section: nothing is returned to a caller that does not
+   hold the lock (Channel.Get hands the queue over and resets the field),
+   stored, sent, captured by a later-running closure or passed to code the
+   translator cannot follow.  GetChatHistory returning slices.Clip(g.history)
+   or g.history[:n] instead of a copy makes this list non-empty. *)
+Theorem no_escaping_state : escaping_guarded_state = [].
+Proof. vm_compute. reflexivity. Qed.
+
 (* ---------------------------------------------------------------- nothing the translator did not understand *)
 
 Theorem nothing_unknown : unknown = [].
-Proof. reflexivity. Qed.
+Proof. vm_compute. reflexivity. Qed.
 
 (* ---------------------------------------------------------------- lock order *)
 
